@@ -10,6 +10,9 @@ def replay(rep, record):
     if record.get("spec") == "Scopes":
         from props.c01 import replay as r
         return r(rep, record)
+    if record.get("spec") == "Metrics":
+        from props.c09 import replay as r9
+        return r9(rep, record)
     return _replay_life(rep, record)
 
 SPEC = "ScopeLife"
@@ -65,6 +68,14 @@ def run(rep, work, tier, seed):
     rnd = random.Random(seed * 43 + 7)
     traces = gen_traces(rep, lambda: life_trace(rnd), 200 if tier == "quick" else 3000)
     leg_t_gen(rep, work, "ScopeLife", f"trace_{tier}", traces, **LIFE_KW)
+    # leaving a scope must not fail because of the completion bookkeeping either (that would leave the state un-restored):
+    # the scope forest with scopes that outlive their ancestors (Metrics.tla, C09's configurations, replayed here too)
+    from props.metrics_common import MetricsDriver
+    minv = ["TypeOK", "CbAtMostOnce", "CbAfterSubtree", "ExitNeverFails"]
+    for nm, conf in (("metrics_wide", dict(NTasks=3, N=3, MaxOps=7, MaxRec=0, MaxT=0, MTypes=["Cat"], Kinds=["s"], Bug="none")),
+                     ("metrics", dict(NTasks=2, N=3, MaxOps=6, MaxRec=0, MaxT=0, MTypes=["Cat"], Kinds=["s", "a"], Bug="none"))):
+        leg_r(rep, work, "Metrics", f"{nm}_{tier}", cfg_text(conf, invariants=minv), lambda: MetricsDriver(["Cat"]),
+              internal=["RunCb", "Finish"], world=True)
     rep.assumptions += [
         "spawned tasks obey cancellation at once; they end or fail only while the parent is in its body or waiting for them",
         "one external cancellation per run; a cancellation that arrives while asyncio's TaskGroup is already aborting "
